@@ -669,20 +669,21 @@ where
                 }
             }
 
-            <M::Rules as DiagramRules<_, _, _>>::reduce(
-                manager,
-                level,
-                children.iter().map(|&child| {
-                    debug_assert_ne!(child, 0);
-                    let e = manager.clone_edge(&nodes[child.unsigned_abs() - 1]);
-                    if child < 0 {
-                        complement(manager, e).unwrap()
-                    } else {
-                        e
-                    }
-                }),
-            )
-            .then_insert(manager, level)?
+            // Complementing a child may fail (out of memory), so we cannot do
+            // it inside the iterator passed to `reduce()`
+            let mut child_edges =
+                EdgeVecDropGuard::new(manager, Vec::with_capacity(children.len()));
+            for &child in &children {
+                debug_assert_ne!(child, 0);
+                let e = manager.clone_edge(&nodes[child.unsigned_abs() - 1]);
+                child_edges.push(if child < 0 {
+                    complement(manager, e)?
+                } else {
+                    e
+                });
+            }
+            <M::Rules as DiagramRules<_, _, _>>::reduce(manager, level, child_edges.into_vec())
+                .then_insert(manager, level)?
         };
         nodes.push(node);
 
